@@ -138,7 +138,42 @@ def unit_chains(per_type):
                 items = [f + sp + n for n in nums]
             for n in (2, 3):
                 yield {'culture': c, 'q': ' '.join(items[:n]), 'src': 'unit-chain', 'only': [t]}
+        # two different units in a row, the second amount a bare 2 or 3 ('3 km 2 miles', 'a 5 m 2 kg box'): a unit that also exists in
+        # squared/cubed form must not swallow the next amount while the next entity keeps it too
+        second = {'en-us': ['miles', 'kg', 'feet'], 'es-es': ['millas', 'kg'], 'es-mx': ['millas', 'kg'], 'fr-fr': ['miles', 'kg'],
+                  'pt-br': ['milhas', 'kg'], 'nl-nl': ['mijl', 'kg'], 'zh-cn': ['公里', 'kg']}
+        firsts = {}
+        for c, t, kind, f, unit, epi in c05.table_entries():
+            if t == 'dimension' and kind == 'suffix' and c in second and f.isascii() and f == f.lower() and len(f) <= 3 and f.isalpha():
+                firsts.setdefault(c, [])
+                if len(firsts[c]) < 40:
+                    firsts[c].append(f)
+        for c, fs in firsts.items():
+            for f in fs:
+                for u2 in second[c]:
+                    for a2 in ('2', '3'):
+                        yield {'culture': c, 'q': 'it is 5 %s %s %s away' % (f, a2, u2), 'src': 'unit-chain', 'only': ['dimension']}
     return gen
+
+
+def phone_group_cases():
+    """series of 3-4 digit groups with the separators and brackets of phone numbers: no single national format need cover the whole
+    series, but whatever the phone model reports must be disjoint"""
+    grp = st.integers(2, 7).flatmap(lambda n: st.text('0123456789', min_size=n, max_size=n))
+
+    def mk(gs, seps, paren, plus, ci):
+        gs = list(gs)
+        if paren:
+            gs[0] = '(' + gs[0] + ')'
+        s = gs[0]
+        for i, g in enumerate(gs[1:]):
+            s += seps[i % len(seps)] + g
+        if plus and not paren:
+            s = '+' + s
+        carrier = ['{}', 'call {} now', 'my number is {}', '{} or {}'][ci]
+        return {'culture': 'en-us', 'q': carrier.format(s, s), 'src': 'phone-groups', 'only': ['phone_number']}
+    return st.builds(mk, st.lists(grp, min_size=3, max_size=4), st.lists(st.sampled_from([' ', ' ', '-', ' - ', ')', '/']), min_size=1, max_size=3),
+                     st.booleans(), st.booleans(), st.integers(0, 3))
 
 
 def date_time_adjacency():
@@ -176,6 +211,7 @@ def parts(tier, seed):
     ps = [enum_part('corpus-all-models', c01.corpus_cases(0.25 if q else 1, seed, salt=13), run_query, exhaustive=not q, weight=3)]
     ps.append(enum_part('unit-chains', unit_chains(12 if q else 60), run_chain, exhaustive=True))
     ps.append(enum_part('date-time-adjacency', date_time_adjacency, run_chain, exhaustive=True))
+    ps.append(hyp_part('phone-digit-groups', phone_group_cases, run_chain, 3000 if q else 60000, min_shard=300))
     for c in allmodels.CULTURES:
         n1 = (800 if c == 'en-us' else 200) if q else (10000 if c == 'en-us' else 2500)
         n2 = (1200 if c == 'en-us' else 300) if q else (30000 if c == 'en-us' else 5500)
